@@ -26,6 +26,7 @@ type Obligation struct {
 	Fn     string
 	Src    string // source text of the clause (for reports)
 	Cover  bool   // reachability cover: expected SAT
+	Lean   string // when non-empty: a Lean theorem to be checked instead of an SMT query
 }
 
 type Item struct {
